@@ -46,7 +46,9 @@ type Site struct {
 	Deferred bool
 }
 
-// held describes one held lock in a dataflow state.
+// Held describes one held lock in a dataflow state.
+type Held = held
+
 type held struct {
 	Class Class
 	Read  bool
